@@ -45,6 +45,10 @@ structure VSpec where
   hasVals : Bool
   exprTy : Option Name
   vals : List Int
+  /-- the type expression is a plain identifier (`T`) as opposed to `pkg.T` or `(T)`: makeStr only
+      looks at `*ast.Ident` types, any other type expression makes it skip the spec WITHOUT touching
+      the remembered type -/
+  tyIdent : Bool := true
   deriving DecidableEq, Repr
 
 structure Const where
@@ -64,6 +68,8 @@ def collectBlock (T : Name) : Option Name → List VSpec → List Const
   | typ, s :: rest =>
     if s.ty.isNone && s.hasVals then
       collectBlock T none rest                       -- "X = 1": reset the remembered type, skip
+    else if s.ty.isSome && !s.tyIdent then
+      collectBlock T typ rest                        -- "X pkg.T = 1": not an identifier, `continue`
     else
       let typ' := match s.ty with
         | some t => some t                           -- "X T": remember it
@@ -71,7 +77,8 @@ def collectBlock (T : Name) : Option Name → List VSpec → List Const
       if typ' ≠ some T then collectBlock T typ' rest
       else namesOf s ++ collectBlock T typ' rest
 
-/-- all files, all const declarations, in source order -/
+/-- all files, all const declarations in source order — `ast.Inspect` also walks into function bodies,
+    so the const declarations inside functions are among them -/
 def collect (T : Name) (blocks : List (List VSpec)) : List Const :=
   blocks.flatMap (collectBlock T none)
 
@@ -133,10 +140,13 @@ def definedSyms : List String := ["_max", "_values", "_strings", "_string_map", 
 def usedSyms (bit : Bool) : List String :=
   ["_string_map", "_max", "_values", "_strings", "_value_map"] ++ (if bit then ["_map"] else [])
 
-/-- does the emitted file compile with the package: map literals have no duplicate constant keys and
-    every table it reads is defined -/
-def compiles (bit : Bool) (T : Name) (cs : List Const) : Bool :=
-  decide (valuesT cs).Nodup && decide (stringsT T cs).Nodup && (usedSyms bit).all (definedSyms.contains ·)
+/-- does the emitted file compile with the package: map literals have no duplicate constant keys,
+    every table it reads is defined, and every constant it names is a package-level constant of the
+    type (`pkg`, by the Go rule) — a function-local constant is `undefined` at package level and a
+    constant of another type cannot be a `T` value -/
+def compiles (bit : Bool) (T : Name) (pkg : List Const) (cs : List Const) : Bool :=
+  decide (valuesT cs).Nodup && decide (stringsT T cs).Nodup && cs.all (fun c => pkg.contains c) &&
+    (usedSyms bit).all (definedSyms.contains ·)
 
 /-! ## emitted methods (no -bit) -/
 
